@@ -1965,3 +1965,252 @@ Proof.
     destruct (beq idb (bs "$")); [|destruct (beq idb (bs "0") || beq idb (bs "0-0")); [|destruct (sid_of_bytes idb); [|contradiction]]];
       cbn [amem alookup s_groups empty_stream fst snd is_error r_ok]; discriminate.
 Qed.
+
+(** ---- the invariants at the level of the database: every command of the family ---- *)
+Definition DbGInv (d : db) : Prop :=
+  forall k e s, get_entry d k = Some e -> e_val e = VStream s -> SInv s /\ groups_ok (s_groups s).
+Lemma DbGInv_empty : DbGInv empty_db.
+Proof. intros k e s H; discriminate. Qed.
+Lemma DbGInv_DbInv d : DbGInv d -> DbInv d.
+Proof. intros H k e s H1 H2. apply (H k e s H1 H2). Qed.
+Lemma DbGInv_put d k ex s : DbGInv d -> SInv s -> groups_ok (s_groups s) ->
+  DbGInv (put_entry d k {| e_val := VStream s; e_exp := ex |}).
+Proof.
+  intros Hd Hs Hg k' e' s'. rewrite get_put_entry. destruct (beq k' k); [|apply Hd].
+  intros Heq; inversion Heq; subst. cbn. intros Hv; inversion Hv; subst. auto.
+Qed.
+Lemma DbGInv_put_stream d k e s : DbGInv d -> SInv s -> groups_ok (s_groups s) -> DbGInv (put_stream d k e s).
+Proof. intros. unfold put_stream. apply DbGInv_put; assumption. Qed.
+Lemma DbGInv_put_group d k e s gn g : DbGInv d -> SInv s -> groups_ok (s_groups s) -> GInv g ->
+  DbGInv (put_group d k e s gn g).
+Proof.
+  intros Hd Hs Hgs Hg. unfold put_group. apply DbGInv_put_stream; [assumption|apply SInv_set_groups; assumption|].
+  cbn [set_groups s_groups]. apply groups_ok_update; assumption.
+Qed.
+Lemma DbGInv_eng_get now d k : DbGInv d -> DbGInv (snd (eng_get now d k)).
+Proof.
+  intros Hd. unfold eng_get. destruct (get_entry d k) as [e|]; [|exact Hd]. destruct (expired now e); [|exact Hd].
+  cbn [snd]. intros k' e' s'. unfold get_entry, index_del, del_entry. cbn [d_data]. rewrite alookup_aremove.
+  destruct (beq k' k); [discriminate|]. apply Hd.
+Qed.
+Lemma get_stream_facts now d k r d1 : DbGInv d -> get_stream now d k = (r, d1) ->
+  DbGInv d1 /\ forall e s, r = SStream e s -> SInv s /\ groups_ok (s_groups s) /\ raw_stream d1 k = SStream e s.
+Proof.
+  intros Hd. unfold get_stream. pose proof (DbGInv_eng_get now d k Hd) as Hd1.
+  unfold eng_get in *. destruct (get_entry d k) as [e0|] eqn:Eg.
+  - destruct (expired now e0).
+    + cbn [fst snd] in *. intros H; inversion H; subst. split; [assumption|]. intros e s Hc; discriminate.
+    + cbn [fst snd] in *. destruct (e_val e0) as [ | | | | |s0] eqn:Ev; intros H; inversion H; subst; (split; [assumption|]); intros e' s' Hc; try discriminate.
+      inversion Hc; subst. destruct (Hd k e' s' Eg Ev) as [H1 H2]. split; [assumption|]. split; [assumption|].
+      unfold raw_stream. rewrite Eg, Ev. reflexivity.
+  - cbn [fst snd]. intros H; inversion H; subst. split; [assumption|]. intros e s Hc; discriminate.
+Qed.
+
+Ltac gs_facts :=
+  repeat match goal with
+  | Hd : DbGInv ?d, H : get_stream _ ?d _ = (_, _) |- _ =>
+      let F1 := fresh "Hd1" in let F2 := fresh "Hst" in
+      destruct (get_stream_facts _ _ _ _ _ Hd H) as [F1 F2]; clear H;
+      try (destruct (F2 _ _ eq_refl) as (? & ? & ?))
+  end.
+Ltac grp_of :=
+  repeat match goal with
+  | Hgs : groups_ok ?gs, H : alookup ?gn ?gs = Some ?g |- _ =>
+      lazymatch goal with
+      | _ : GInv g |- _ => fail
+      | _ => pose proof (Hgs _ _ H)
+      end
+  end.
+
+Theorem xgroup_dbg now d parts : DbGInv d -> DbGInv (snd (h_xgroup now d parts)).
+Proof.
+  intros Hd. unfold h_xgroup, h_xgroup_create, h_xgroup_destroy, h_xgroup_createconsumer, h_xgroup_delconsumer, h_xgroup_setid.
+  repeat (first [ progress cbn [fst snd] | break_match ]); gs_facts; grp_of; try assumption.
+  all: try (apply DbGInv_put_group; try assumption).
+  all: try match goal with
+       | H : g_create_consumer ?g ?c = (_, ?g') |- GInv ?g' =>
+           replace g' with (snd (g_create_consumer g c)) by (rewrite H; reflexivity); apply create_consumer_ginv; assumption
+       | H : g_delete_consumer ?g ?c = (_, ?g') |- GInv ?g' =>
+           replace g' with (snd (g_delete_consumer g c)) by (rewrite H; reflexivity); apply delete_consumer_inv; assumption
+       | |- GInv (set_last _ _) => apply set_last_inv; assumption
+       end.
+  all: try (apply DbGInv_put_stream; [assumption | apply SInv_set_groups; assumption | cbn [set_groups s_groups]]).
+  all: try match goal with
+       | H : amem ?gn ?gs = false |- groups_ok (?gs ++ [(?gn, mk_group _)]) =>
+           apply groups_ok_create; [assumption | apply amem_alookup; exact H]
+       | |- groups_ok (aremove _ _) => apply groups_ok_destroy; assumption
+       end.
+  all: assert (Hmk : forall d0 k, DbGInv d0 -> DbGInv (set_value now d0 k (VStream empty_stream) None))
+         by (intros d0' k0 Hd0; unfold set_value; apply DbGInv_put; [exact Hd0 | exact SInv_empty | exact groups_ok_nil]).
+  all: try (apply Hmk; assumption).
+  apply DbGInv_put_stream; [apply Hmk; assumption | apply SInv_set_groups; exact SInv_empty | cbn [set_groups s_groups empty_stream app]].
+  apply (groups_ok_create [] _ _ groups_ok_nil eq_refl).
+Qed.
+
+Lemma raw_stream_facts d k e s : DbGInv d -> raw_stream d k = SStream e s -> SInv s /\ groups_ok (s_groups s).
+Proof.
+  intros Hd. unfold raw_stream. destruct (get_entry d k) as [e0|] eqn:E; [|discriminate].
+  destruct (e_val e0) eqn:Ev; try discriminate. intros Heq; inversion Heq; subst. eapply Hd; eassumption.
+Qed.
+
+(** XREADGROUP, whatever the ID: the group it reads satisfies the invariant afterwards *)
+Theorem read_group_ginv now s g c a count noack : SInv s -> GInv g ->
+  GInv (snd (st_read_group now s g c a count noack)).
+Proof.
+  intros Hs Hg. destruct (sid_eqb a sid_max) eqn:E.
+  - apply sid_eqb_eq in E. subst a. apply (read_new_inv now s g c count noack Hs Hg).
+  - apply (read_own_spec now s g c a count noack E Hg).
+Qed.
+
+Lemma resolve_dbg now gn : forall keys ids d acc, DbGInv d -> DbGInv (snd (xreadgroup_resolve now d gn keys ids acc)).
+Proof.
+  induction keys as [|kf keys IH]; intros ids d acc Hd; cbn [xreadgroup_resolve]; [exact Hd|].
+  destruct ids as [|idf ids]; [exact Hd|]. destruct kf; try exact Hd. destruct idf; try exact Hd.
+  destruct (get_stream now d b) as [r d1] eqn:Eg. destruct (get_stream_facts _ _ _ _ _ Hd Eg) as [Hd1 _].
+  destruct r; cbn [snd]; try exact Hd1; [|apply IH; exact Hd1].
+  repeat (first [ progress cbn [fst snd] | break_match ]); try exact Hd1. apply IH. exact Hd1.
+Qed.
+Lemma deliver_dbg now gn c o : forall reads d acc, DbGInv d -> DbGInv (snd (xreadgroup_deliver now d gn c o reads acc)).
+Proof.
+  induction reads as [|[k a] reads IH]; intros d acc Hd; cbn [xreadgroup_deliver].
+  - destruct acc; [destruct (ro_block o)|]; exact Hd.
+  - destruct (raw_stream d k) as [e s| |] eqn:Er; try (apply IH; exact Hd).
+    destruct (raw_stream_facts _ _ _ _ Hd Er) as [Hs Hgs].
+    destruct (alookup gn (s_groups s)) as [g|] eqn:Eg; [|exact Hd].
+    pose proof (read_group_ginv now s g c a (ro_count o) (ro_noack o) Hs (Hgs _ _ Eg)) as Hg'.
+    destruct (st_read_group now s g c a (ro_count o) (ro_noack o)) as [es g']. cbn [snd] in Hg'.
+    assert (Hput : DbGInv (put_group d k e s gn g')) by (apply DbGInv_put_group; assumption).
+    destruct es; [destruct (sid_eqb a sid_max)|]; apply IH; assumption.
+Qed.
+Theorem xreadgroup_dbg now d parts : DbGInv d -> DbGInv (snd (h_xreadgroup now d parts)).
+Proof.
+  intros Hd. unfold h_xreadgroup.
+  repeat (first [ progress cbn [fst snd] | break_match ]); try assumption.
+  - match goal with H : xreadgroup_resolve ?now ?d ?gn ?ks ?is ?acc = (_, ?d1) |- DbGInv ?d1 =>
+      replace d1 with (snd (xreadgroup_resolve now d gn ks is acc)) by (rewrite H; reflexivity); apply resolve_dbg; assumption end.
+  - apply deliver_dbg.
+    match goal with H : xreadgroup_resolve ?now ?d ?gn ?ks ?is ?acc = (_, ?d1) |- DbGInv ?d1 =>
+      replace d1 with (snd (xreadgroup_resolve now d gn ks is acc)) by (rewrite H; reflexivity); apply resolve_dbg; assumption end.
+Qed.
+
+Theorem xack_dbg now d parts : DbGInv d -> DbGInv (snd (h_xack now d parts)).
+Proof.
+  intros Hd. unfold h_xack.
+  repeat (first [ progress cbn [fst snd] | break_match ]); gs_facts; grp_of; try assumption.
+  apply DbGInv_put_group; try assumption.
+  match goal with H : g_acknowledge ?g ?ids = (_, ?g') |- GInv ?g' =>
+    replace g' with (snd (g_acknowledge g ids)) by (rewrite H; reflexivity); apply acknowledge_inv; assumption end.
+Qed.
+Theorem xclaim_dbg now d parts : DbGInv d -> DbGInv (snd (h_xclaim now d parts)).
+Proof.
+  intros Hd. unfold h_xclaim.
+  repeat (first [ progress cbn [fst snd] | break_match ]); gs_facts; grp_of; try assumption.
+  all: apply DbGInv_put_group; try assumption.
+  all: match goal with H : g_claim ?now ?g ?c ?mi ?ids ?f = (_, ?g') |- GInv ?g' =>
+    replace g' with (snd (g_claim now g c mi ids f)) by (rewrite H; reflexivity); apply claim_inv; assumption end.
+Qed.
+Theorem xpending_dbg now d parts : DbGInv d -> DbGInv (snd (h_xpending now d parts)).
+Proof.
+  intros Hd. unfold h_xpending.
+  repeat (first [ progress cbn [fst snd] | break_match ]); gs_facts; try assumption.
+Qed.
+Theorem xinfo_dbg now d parts : DbGInv d -> DbGInv (snd (h_xinfo now d parts)).
+Proof.
+  intros Hd. unfold h_xinfo.
+  repeat (first [ progress cbn [fst snd] | break_match ]); gs_facts; try assumption.
+Qed.
+
+(** the commands that change entries do not touch the groups *)
+Lemma add_auto_groups now s f id s' : st_add_auto now s f = Some (id, s') -> s_groups s' = s_groups s.
+Proof. unfold st_add_auto. destruct (gen_next now s) as [[[i ms] sq]|]; [|discriminate]. intros H; inversion H; reflexivity. Qed.
+Lemma add_with_id_groups s id f s' : st_add_with_id s id f = Some s' -> s_groups s' = s_groups s.
+Proof.
+  unfold st_add_with_id. destruct (sid_leb id (s_last s)); [discriminate|]. destruct (has_id id (s_entries s)); [discriminate|].
+  intros H; inversion H; reflexivity.
+Qed.
+Lemma delete_groups s ids : s_groups (snd (st_delete s ids)) = s_groups s.
+Proof. unfold st_delete. destruct (0 <? _); reflexivity. Qed.
+Lemma trim_groups s n : s_groups (snd (st_trim s n)) = s_groups s.
+Proof. unfold st_trim. destruct (len (s_entries s) <=? n); reflexivity. Qed.
+
+Ltac rs_facts Hd :=
+  repeat match goal with
+  | H : raw_stream _ _ = SStream _ _ |- _ =>
+      let F1 := fresh "Hs" in let F2 := fresh "Hgs" in
+      destruct (raw_stream_facts _ _ _ _ Hd H) as [F1 F2]; clear H
+  end.
+
+Theorem xadd_dbg d parts oracle : DbGInv d -> DbGInv (snd (h_xadd d parts oracle)).
+Proof.
+  intros Hd. unfold h_xadd.
+  repeat (first [ progress cbn [fst snd] | break_match ]); try assumption; rs_facts Hd.
+  all: first [ apply DbGInv_put_stream; [assumption| |] | unfold new_entry; apply DbGInv_put; [assumption| |] ].
+  all: try match goal with
+       | H : st_add_auto _ _ _ = Some _, Hs : SInv _ |- SInv _ => apply (add_auto_inv _ _ _ _ _ Hs H)
+       | H : st_add_auto _ empty_stream _ = Some _ |- SInv _ => apply (add_auto_inv _ _ _ _ _ SInv_empty H)
+       | H : st_add_with_id _ _ _ = Some _, Hs : SInv _ |- SInv _ => apply (add_with_id_inv _ _ _ _ Hs H)
+       | H : st_add_with_id empty_stream _ _ = Some _ |- SInv _ => apply (add_with_id_inv _ _ _ _ SInv_empty H)
+       | H : st_add_auto _ _ _ = Some _ |- groups_ok _ => rewrite (add_auto_groups _ _ _ _ _ H); first [assumption | exact groups_ok_nil]
+       | H : st_add_with_id _ _ _ = Some _ |- groups_ok _ => rewrite (add_with_id_groups _ _ _ _ H); first [assumption | exact groups_ok_nil]
+       end.
+Qed.
+Theorem xdel_dbg d parts : DbGInv d -> DbGInv (snd (h_xdel d parts)).
+Proof.
+  intros Hd. unfold h_xdel.
+  repeat (first [ progress cbn [fst snd] | break_match ]); try assumption; rs_facts Hd.
+  all: apply DbGInv_put_stream; [assumption| |].
+  all: match goal with
+       | H : st_delete ?s ?ids = (_, ?s'), Hs : SInv ?s |- SInv ?s' =>
+           let K := fresh in pose proof (delete_inv s ids Hs) as K; rewrite H in K; apply K
+       | H : st_delete ?s ?ids = (_, ?s') |- groups_ok (s_groups ?s') =>
+           replace s' with (snd (st_delete s ids)) by (rewrite H; reflexivity); rewrite delete_groups; assumption
+       end.
+Qed.
+Theorem xtrim_dbg d parts : DbGInv d -> DbGInv (snd (h_xtrim d parts)).
+Proof.
+  intros Hd. unfold h_xtrim.
+  repeat (first [ progress cbn [fst snd] | break_match ]); try assumption; rs_facts Hd.
+  all: apply DbGInv_put_stream; [assumption| |].
+  all: match goal with
+       | H : st_trim ?s ?n = (_, ?s'), Hs : SInv ?s, Hm : xtrim_maxlen _ = Some ?n |- SInv ?s' =>
+           let K2 := fresh in
+           pose proof (trim_inv s n Hs (xtrim_maxlen_nonneg _ _ Hm)) as K2; rewrite H in K2; apply K2
+       | H : st_trim ?s ?n = (_, ?s') |- groups_ok (s_groups ?s') =>
+           replace s' with (snd (st_trim s n)) by (rewrite H; reflexivity); rewrite trim_groups; assumption
+       end.
+Qed.
+
+(** Every command of the stream family, with every argument list, at every time, keeps
+    the stream invariant of every stream and the agreement invariant of every group of
+    every stream in the database - XGROUP SETID to any ID, explicit-ID reads, re-delivery
+    after SETID and failing commands included. *)
+Theorem exec_streams_dbg now d name parts oracle r d' : DbGInv d ->
+  exec_streams now d name parts oracle = Some (r, d') -> DbGInv d'.
+Proof.
+  intros Hd. unfold exec_streams.
+  pose proof (xreads_pure d parts) as (P1 & P2 & P3 & P4).
+  repeat match goal with |- context [if beq name ?x then _ else _] => destruct (beq name x) end;
+    intros H; try discriminate; injection H as H; apply (f_equal snd) in H; cbn [snd] in H; subst d'.
+  - apply xadd_dbg; assumption.
+  - rewrite P1; assumption.
+  - rewrite P2; assumption.
+  - rewrite P3; assumption.
+  - rewrite P4; assumption.
+  - apply xtrim_dbg; assumption.
+  - apply xdel_dbg; assumption.
+  - apply xgroup_dbg; assumption.
+  - apply xreadgroup_dbg; assumption.
+  - apply xack_dbg; assumption.
+  - apply xclaim_dbg; assumption.
+  - apply xpending_dbg; assumption.
+  - apply xinfo_dbg; assumption.
+Qed.
+(** ... hence along every history of commands (scripts as in the witnesses) *)
+Theorem run_cmds_dbg now : forall cs d, DbGInv d -> DbGInv (snd (run_cmds now d cs)).
+Proof.
+  induction cs as [|c cs IH]; intros d Hd; cbn [run_cmds]; [exact Hd|].
+  destruct c as [|[] ?]; try exact Hd.
+  destruct (exec_streams now d (upper b) (FBulk b :: c) None) as [[f d1]|] eqn:E; [|exact Hd].
+  pose proof (exec_streams_dbg _ _ _ _ _ _ _ Hd E) as Hd1. specialize (IH d1 Hd1).
+  destruct (run_cmds now d1 cs). exact IH.
+Qed.
